@@ -590,6 +590,18 @@ Proof.
 Qed.
 Print Assumptions c05_stack_memory_edges.
 
+(* ... and the test walk_stack applies to a stack memory is the one minidump.rs has: MinidumpMemoryBase::memory_range,
+   re-emitted from its text (Gen/UnwindTail.v: `size == 0`, `base_address.checked_add(size)?`, `- 1` as chk_sub), returns
+   without a trap in both profiles, and it is Some exactly when the model's [mem_ok] holds (then the range is
+   [base, base + size - 1]) -- so c05_stack_memory_edges and the `mem_ok` branch of every walker theorem speak about
+   the source's notion of a usable stack memory *)
+Theorem c05_memory_range_source :
+  forall p m, mem_wf m ->
+    minidump_memory_range p (m_base m) (Z.of_nat (length (m_bytes m))) =
+    Ret (if mem_ok m then Some (m_base m, m_base m + Z.of_nat (length (m_bytes m)) - 1) else None).
+Proof. exact mem_ok_is_source. Qed.
+Print Assumptions c05_memory_range_source.
+
 (* ---- non-vacuity of the second pass *)
 (* a 16-byte amd64 stack whose last byte is at 2^64 - 2: the scan finds the return address in the last word, the caller's
    stack pointer is 2^64 - 1 (no overflow trap in either profile), and the walk stops there; moved up by one byte the
